@@ -158,14 +158,17 @@ def check_case(case, ctx):
     else:   # extensible: prefix + X fully matches prefix + numeral iff canonical and in range
         prefix = case['prefix']
         from pregex.core.pre import Pregex
+        suffix = case.get('suffix', '')       # extended to the right as well: a non-digit pattern after the numeral ('px', '_', ' kg')
         q = Pregex(prefix) + make(variant, start, end, inc, True)
+        if suffix:
+            q = q + suffix
         for r in case['numerals']:
             want = valid(r, start, end)
-            got = q.is_exact_match(prefix + r)
+            got = q.is_exact_match(prefix + r + suffix)
             acc += want
             rej += not want
             if got != want:
-                violation('extensible', case, f'(Pregex({prefix!r}) + {what}).is_exact_match({prefix + r!r}) = {got}; model {want}', ctx)
+                violation('extensible', case, f'(Pregex({prefix!r}) + {what} + {suffix!r}).is_exact_match({prefix + r + suffix!r}) = {got}; model {want}', ctx)
                 break
     ctx.count(f'variant:{variant}')
     nt = acc > 0 and rej > 0
@@ -223,6 +226,7 @@ def gen_case(draw):
         variant = draw(st.sampled_from(['Integer', 'UnsignedInteger']))
         return {'mode': 'ext', 'start': start, 'end': end, 'variant': variant, 'include_sign': False, 'ext': True,
                 'prefix': draw(st.sampled_from(['id', 'x=', '#', 'a', 'No. ', '(', 'é'])),
+                'suffix': draw(st.sampled_from(['', '', 'px', '_', 'st', ' kg', ')', 'é', '.', '%', '\n', 'x1'])),
                 'numerals': draw(st.lists(num, min_size=3, max_size=10))}
     tok = st.tuples(st.sampled_from(SIGN_PRE), num, st.sampled_from([' ', ' ', ' ', '\n', ' ! ', ', ', ' (', ') ', ' . ', ',', ';', ')', '.', ':']))
     toks = draw(st.lists(tok, min_size=1, max_size=8))
